@@ -12,6 +12,8 @@ mod oracle;
 mod rng;
 #[cfg(feature = "full")]
 mod serde_ops;
+#[cfg(feature = "full")]
+mod serde_extra;
 mod tables;
 
 use std::io::{BufRead, Write};
